@@ -15,71 +15,103 @@ namespace Pfst.Scope
 /-! ### generic simulation -/
 
 section sim
-variable {σ τ : Type} (f1 : σ → Kind → Role → Bool × σ) (g1 : σ → Role → σ) (f2 : τ → Kind → Role → Bool × τ)
-  (g2 : τ → Role → τ) (R : σ → τ → Bool) (okk : σ → τ → Kind → Role → Bool)
+variable {σ τ : Type} (f1 : σ → Kind → Role → Bool × σ) (f2 : τ → Kind → Role → Bool × τ)
+  (R : σ → τ → Bool) (okk : σ → τ → Kind → Role → Bool)
 
 mutual
 theorem trav_sim
     (hstep : ∀ s t k r, R s t = true → okk s t k r = true →
-      (f1 s k r).1 = (f2 t k r).1 ∧ R (f1 s k r).2 (f2 t k r).2 = true)
-    (hnext : ∀ s t r, R s t = true → R (g1 s r) (g2 t r) = true) :
-    ∀ (n : Node) (s : σ) (t : τ), R s t = true → goodG f1 g1 f2 g2 okk s t n = true →
-      trav f1 g1 s n = trav f2 g2 t n
+      (f1 s k r).1 = (f2 t k r).1 ∧ R (f1 s k r).2 (f2 t k r).2 = true) :
+    ∀ (n : Node) (s : σ) (t : τ), R s t = true → goodG f1 f2 okk s t n = true →
+      trav f1 s n = trav f2 t n ∧ travB f1 s n = travB f2 t n
   | .mk i k r ns kids, s, t, hR, hg => by
     simp only [goodG, Bool.and_eq_true] at hg
     obtain ⟨h1, h2⟩ := hstep s t k r hR hg.1
-    have ih := travL_sim hstep hnext kids _ _ h2 hg.2
-    simp only [trav, h1, ih]
+    have ih := travL_sim hstep kids _ _ h2 hg.2
+    simp only [trav, travB, h1, ih.1, ih.2, and_self]
 theorem travL_sim
     (hstep : ∀ s t k r, R s t = true → okk s t k r = true →
-      (f1 s k r).1 = (f2 t k r).1 ∧ R (f1 s k r).2 (f2 t k r).2 = true)
-    (hnext : ∀ s t r, R s t = true → R (g1 s r) (g2 t r) = true) :
-    ∀ (l : List Node) (s : σ) (t : τ), R s t = true → goodGL f1 g1 f2 g2 okk s t l = true →
-      travL f1 g1 s l = travL f2 g2 t l
-  | [], _, _, _, _ => rfl
+      (f1 s k r).1 = (f2 t k r).1 ∧ R (f1 s k r).2 (f2 t k r).2 = true) :
+    ∀ (l : List Node) (s : σ) (t : τ), R s t = true → goodGL f1 f2 okk s t l = true →
+      travL f1 s l = travL f2 t l ∧ travLB f1 s l = travLB f2 t l
+  | [], _, _, _, _ => ⟨rfl, rfl⟩
   | n :: rest, s, t, hR, hg => by
     simp only [goodGL, Bool.and_eq_true] at hg
-    have h1 := trav_sim hstep hnext n s t hR hg.1
-    have h2 := travL_sim hstep hnext rest _ _ (hnext s t n.role hR) hg.2
-    simp only [travL, h1, h2]
+    have h1 := trav_sim hstep n s t hR hg.1
+    have h2 := travL_sim hstep rest s t hR hg.2
+    simp only [travL, travLB, h1.1, h1.2, h2.1, h2.2, and_self]
 end
 end sim
+
+/-! ### direction: the backward walk yields the same nodes -/
+
+section dir
+variable {σ : Type} (f : σ → Kind → Role → Bool × σ)
+
+mutual
+theorem travB_perm : ∀ (n : Node) (s : σ), (travB f s n).Perm (trav f s n)
+  | .mk i k r ns kids, s => by
+    simp only [travB, trav]
+    exact List.Perm.append_left _ (travLB_perm kids _)
+theorem travLB_perm : ∀ (l : List Node) (s : σ), (travLB f s l).Perm (travL f s l)
+  | [], _ => List.Perm.refl _
+  | n :: rest, s => by
+    simp only [travLB, travL]
+    exact (List.perm_append_comm).trans (List.Perm.append (travB_perm n s) (travLB_perm rest s))
+end
+end dir
+
+/-! ### replacement during the walk -/
+
+section repl
+variable {σ : Type} (old : Nat → Kind → Kind) (f : σ → Kind → Role → Bool × σ)
+
+mutual
+theorem travO_eq (hk : ∀ s k k' r, (f s k r).1 = (f s k' r).1) : ∀ (n : Node) (s : σ), travO old f s n = trav f s n
+  | .mk i k r ns kids, s => by
+    simp only [travO, trav, hk s (old i k) k r, travLO_eq hk kids]
+theorem travLO_eq (hk : ∀ s k k' r, (f s k r).1 = (f s k' r).1) : ∀ (l : List Node) (s : σ), travLO old f s l = travL f s l
+  | [], _ => rfl
+  | n :: rest, s => by
+    simp only [travLO, travL, travO_eq hk n, travLO_eq hk rest]
+end
+end repl
 
 /-! ### filtering -/
 
 section filt
-variable {σ : Type} (f : σ → Kind → Role → Bool × σ) (g : σ → Role → σ) (p : Kind → Bool)
+variable {σ : Type} (f : σ → Kind → Role → Bool × σ) (p : Kind → Bool)
 
 def filtTable (s : σ) (k : Kind) (r : Role) : Bool × σ := ((f s k r).1 && p k, (f s k r).2)
 
 mutual
 theorem trav_filter : ∀ (n : Node) (s : σ),
-    trav (filtTable f p) g s n = (trav f g s n).filter (fun m => p m.kind)
+    trav (filtTable f p) s n = (trav f s n).filter (fun m => p m.kind)
   | .mk i k r ns kids, s => by
     have ih := travL_filter kids (f s k r).2
     simp only [trav, filtTable, List.filter_append, ih]
     congr 1
     by_cases h1 : (f s k r).1 = true <;> by_cases h2 : p k = true <;> simp [h1, h2, Node.kind]
 theorem travL_filter : ∀ (l : List Node) (s : σ),
-    travL (filtTable f p) g s l = (travL f g s l).filter (fun m => p m.kind)
+    travL (filtTable f p) s l = (travL f s l).filter (fun m => p m.kind)
   | [], _ => rfl
   | n :: rest, s => by
-    simp only [travL, List.filter_append, trav_filter n s, travL_filter rest (g s n.role)]
+    simp only [travL, List.filter_append, trav_filter n s, travL_filter rest s]
 end
 end filt
 
 /-! ### the finite check -/
 
-def Pos.all : List Pos := [.norm, .hdr, .args, .argn, .tpn, .comp0, .comp1, .gen0, .gen1, .ne]
+def Pos.all : List Pos := [.norm, .hdr, .args, .argn, .tpn, .comp0, .gen0, .gen1, .ne]
 def MPos.all : List MPos :=
-  [.loop, .dead, .rootDef, .rootLam, .rootArgs, .rootComp0, .rootComp1, .rootGen0, .rootGen1, .hdrFunc, .hdrClass, .hdrLam,
-   .hdrArgs, .lamArgs, .pick, .cw0, .cw1, .cwGen0, .cw, .cwT]
+  [.loop, .dead, .rootDef, .rootLam, .rootArgs, .rootComp0, .rootGen0, .rootGen1, .hdrFunc, .hdrClass, .hdrLam,
+   .hdrArgs, .lamArgs, .pick, .cw0, .cwGen0, .cw, .cwT]
 def Kind.all : List Kind :=
   [.module, .funcdef, .lambda, .classdef, .comp, .arguments, .arg, .tparam, .gen, .namedexpr, .nameLoad, .nameStore, .nameDel,
    .global, .nonlocal, .import_, .augassign, .handler, .matchAs, .matchStar, .matchMap, .other]
 def Role.all : List Role :=
-  [.plain, .deco, .tparam, .args, .returns, .body, .argr, .dflt, .ann, .bound, .base, .kw, .elt, .gen, .target, .iter, .cond,
-   .wtarget]
+  [.plain, .deco, .tparam, .args, .returns, .body, .argr, .dflt, .ann, .bound, .base, .kw, .elt, .gen0, .gen, .target, .iter,
+   .cond, .wtarget]
 def boolAll : List Bool := [false, true]
 
 theorem Pos.mem_all (p : Pos) : p ∈ Pos.all := by cases p <;> decide
@@ -99,7 +131,8 @@ def Kind.reps : List Kind := [.funcdef, .classdef, .lambda, .comp, .namedexpr, .
 def Role.rep : Role → Role
   | .ann | .bound | .elt | .target | .cond => .plain
   | r => r
-def Role.reps : List Role := [.plain, .deco, .tparam, .args, .returns, .body, .argr, .dflt, .base, .kw, .gen, .iter, .wtarget]
+def Role.reps : List Role :=
+  [.plain, .deco, .tparam, .args, .returns, .body, .argr, .dflt, .base, .kw, .gen0, .gen, .iter, .wtarget]
 
 theorem Kind.rep_mem (k : Kind) : k.rep ∈ Kind.reps := by cases k <;> decide
 theorem Role.rep_mem (r : Role) : r.rep ∈ Role.reps := by cases r <;> decide
@@ -124,17 +157,10 @@ theorem ok_rep (s : SS Bool) (m : MPos) (k : Kind) (r : Role) : ok s m k r = ok 
   have h1 : ok s m k r = ok s m k.rep r := by cases k <;> rfl
   have h2 : ok s m k.rep r = ok s m k.rep r.rep := by cases r <;> rfl
   rw [h1, h2]
-theorem sNext_rep (s : SS Bool) (r : Role) : sNext s r = sNext s r.rep := by
-  obtain ⟨p, a, b, c, d⟩ := s
-  cases r <;> first | rfl | (cases p <;> rfl)
-theorem mNext_rep (m : MPos) (r : Role) : mNext m r = mNext m r.rep := by
-  cases r <;> first | rfl | (cases m <;> rfl)
-
 /-- everything `trav_sim` needs of one related pair of states, for every (representative) kind and role, as a Boolean -/
 def checkPair (flt : Bool) (s : SS Bool) (m : MPos) : Bool :=
   !rel s m ||
   (Role.reps.all fun r =>
-    rel (sNext s r) (mNext m r) &&
     Kind.reps.all fun k =>
       !ok s m k r ||
       ((sStepF flt s k r).1 == (mStep flt m k r).1 && rel (sStepF flt s k r).2 (mStep flt m k r).2))
@@ -151,7 +177,6 @@ private theorem chk_false_rootDef : checkM false .rootDef = true := by decide +k
 private theorem chk_false_rootLam : checkM false .rootLam = true := by decide +kernel
 private theorem chk_false_rootArgs : checkM false .rootArgs = true := by decide +kernel
 private theorem chk_false_rootComp0 : checkM false .rootComp0 = true := by decide +kernel
-private theorem chk_false_rootComp1 : checkM false .rootComp1 = true := by decide +kernel
 private theorem chk_false_rootGen0 : checkM false .rootGen0 = true := by decide +kernel
 private theorem chk_false_rootGen1 : checkM false .rootGen1 = true := by decide +kernel
 private theorem chk_false_hdrFunc : checkM false .hdrFunc = true := by decide +kernel
@@ -161,7 +186,6 @@ private theorem chk_false_hdrArgs : checkM false .hdrArgs = true := by decide +k
 private theorem chk_false_lamArgs : checkM false .lamArgs = true := by decide +kernel
 private theorem chk_false_pick : checkM false .pick = true := by decide +kernel
 private theorem chk_false_cw0 : checkM false .cw0 = true := by decide +kernel
-private theorem chk_false_cw1 : checkM false .cw1 = true := by decide +kernel
 private theorem chk_false_cwGen0 : checkM false .cwGen0 = true := by decide +kernel
 private theorem chk_false_cw : checkM false .cw = true := by decide +kernel
 private theorem chk_false_cwT : checkM false .cwT = true := by decide +kernel
@@ -171,7 +195,6 @@ private theorem chk_true_rootDef : checkM true .rootDef = true := by decide +ker
 private theorem chk_true_rootLam : checkM true .rootLam = true := by decide +kernel
 private theorem chk_true_rootArgs : checkM true .rootArgs = true := by decide +kernel
 private theorem chk_true_rootComp0 : checkM true .rootComp0 = true := by decide +kernel
-private theorem chk_true_rootComp1 : checkM true .rootComp1 = true := by decide +kernel
 private theorem chk_true_rootGen0 : checkM true .rootGen0 = true := by decide +kernel
 private theorem chk_true_rootGen1 : checkM true .rootGen1 = true := by decide +kernel
 private theorem chk_true_hdrFunc : checkM true .hdrFunc = true := by decide +kernel
@@ -181,7 +204,6 @@ private theorem chk_true_hdrArgs : checkM true .hdrArgs = true := by decide +ker
 private theorem chk_true_lamArgs : checkM true .lamArgs = true := by decide +kernel
 private theorem chk_true_pick : checkM true .pick = true := by decide +kernel
 private theorem chk_true_cw0 : checkM true .cw0 = true := by decide +kernel
-private theorem chk_true_cw1 : checkM true .cw1 = true := by decide +kernel
 private theorem chk_true_cwGen0 : checkM true .cwGen0 = true := by decide +kernel
 private theorem chk_true_cw : checkM true .cw = true := by decide +kernel
 private theorem chk_true_cwT : checkM true .cwT = true := by decide +kernel
@@ -194,7 +216,6 @@ theorem checkM_true (flt : Bool) (m : MPos) : checkM flt m = true := by
   · exact chk_false_rootLam
   · exact chk_false_rootArgs
   · exact chk_false_rootComp0
-  · exact chk_false_rootComp1
   · exact chk_false_rootGen0
   · exact chk_false_rootGen1
   · exact chk_false_hdrFunc
@@ -204,7 +225,6 @@ theorem checkM_true (flt : Bool) (m : MPos) : checkM flt m = true := by
   · exact chk_false_lamArgs
   · exact chk_false_pick
   · exact chk_false_cw0
-  · exact chk_false_cw1
   · exact chk_false_cwGen0
   · exact chk_false_cw
   · exact chk_false_cwT
@@ -214,7 +234,6 @@ theorem checkM_true (flt : Bool) (m : MPos) : checkM flt m = true := by
   · exact chk_true_rootLam
   · exact chk_true_rootArgs
   · exact chk_true_rootComp0
-  · exact chk_true_rootComp1
   · exact chk_true_rootGen0
   · exact chk_true_rootGen1
   · exact chk_true_hdrFunc
@@ -224,7 +243,6 @@ theorem checkM_true (flt : Bool) (m : MPos) : checkM flt m = true := by
   · exact chk_true_lamArgs
   · exact chk_true_pick
   · exact chk_true_cw0
-  · exact chk_true_cw1
   · exact chk_true_cwGen0
   · exact chk_true_cw
   · exact chk_true_cwT
@@ -241,18 +259,12 @@ theorem step_ok (flt : Bool) (s : SS Bool) (m : MPos) (k : Kind) (r : Role) (hR 
   have h := checkPair_true flt s m
   simp only [checkPair, hR, Bool.not_true, Bool.false_or, List.all_eq_true, Bool.and_eq_true, Bool.or_eq_true,
     Bool.not_eq_true', beq_iff_eq] at h
-  have h2 := (h r.rep (Role.rep_mem r)).2 k.rep (Kind.rep_mem k)
+  have h2 := h r.rep (Role.rep_mem r) k.rep (Kind.rep_mem k)
   rw [ok_rep] at hk
   rw [sStepF_rep, mStep_rep]
   rcases h2 with h2 | h2
   · rw [hk] at h2; cases h2
   · exact h2
-
-theorem next_ok (s : SS Bool) (m : MPos) (r : Role) (hR : rel s m = true) : rel (sNext s r) (mNext m r) = true := by
-  have h := checkPair_true false s m
-  simp only [checkPair, hR, Bool.not_true, Bool.false_or, List.all_eq_true, Bool.and_eq_true] at h
-  rw [sNext_rep, mNext_rep]
-  exact (h r.rep (Role.rep_mem r)).1
 
 theorem init_rel (k : Kind) : rel (sInit true k) (mInit k) = true := by cases k <;> decide
 
@@ -272,35 +284,48 @@ theorem mStep_snd (flt : Bool) (m : MPos) (k : Kind) (r : Role) : (mStep flt m k
     exact h m (MPos.mem_all m) k (Kind.mem_all k) r (Role.mem_all r)
 
 section congr
-variable {σ τ : Type} (f1 f1' : σ → Kind → Role → Bool × σ) (g1 : σ → Role → σ) (f2 f2' : τ → Kind → Role → Bool × τ)
-  (g2 : τ → Role → τ) (okk : σ → τ → Kind → Role → Bool)
+variable {σ τ : Type} (f1 f1' : σ → Kind → Role → Bool × σ) (f2 f2' : τ → Kind → Role → Bool × τ)
+  (okk : σ → τ → Kind → Role → Bool)
 
 mutual
 theorem goodG_congr (h1 : ∀ s k r, (f1 s k r).2 = (f1' s k r).2) (h2 : ∀ t k r, (f2 t k r).2 = (f2' t k r).2) :
-    ∀ (n : Node) (s : σ) (t : τ), goodG f1 g1 f2 g2 okk s t n = goodG f1' g1 f2' g2 okk s t n
+    ∀ (n : Node) (s : σ) (t : τ), goodG f1 f2 okk s t n = goodG f1' f2' okk s t n
   | .mk i k r ns kids, s, t => by
     simp only [goodG, h1, h2, goodGL_congr h1 h2 kids]
 theorem goodGL_congr (h1 : ∀ s k r, (f1 s k r).2 = (f1' s k r).2) (h2 : ∀ t k r, (f2 t k r).2 = (f2' t k r).2) :
-    ∀ (l : List Node) (s : σ) (t : τ), goodGL f1 g1 f2 g2 okk s t l = goodGL f1' g1 f2' g2 okk s t l
+    ∀ (l : List Node) (s : σ) (t : τ), goodGL f1 f2 okk s t l = goodGL f1' f2' okk s t l
   | [], _, _ => rfl
   | n :: rest, s, t => by
     simp only [goodGL, goodG_congr h1 h2 n, goodGL_congr h1 h2 rest]
 end
 end congr
 
+/-- whether the model yields a node does not depend on the node's class when `all=True` -/
+def emitIndep : Bool :=
+  MPos.all.all fun m => Kind.all.all fun k => Role.all.all fun r => (mStep false m k r).1 == (mStep false m .other r).1
+
+theorem emitIndep_true : emitIndep = true := by decide +kernel
+
+theorem mStep_emit (m : MPos) (k k' : Kind) (r : Role) : (mStep false m k r).1 = (mStep false m k' r).1 := by
+  have h := emitIndep_true
+  simp only [emitIndep, List.all_eq_true, beq_iff_eq] at h
+  rw [h m (MPos.mem_all m) k (Kind.mem_all k) r (Role.mem_all r), h m (MPos.mem_all m) k' (Kind.mem_all k') r (Role.mem_all r)]
+
 /-- The model's scope walk of `r` yields, in order, exactly the spec's nodes of the scope (plus walrus targets when `r`
-is a comprehension) that pass the `all` filter. -/
+is a comprehension) that pass the `all` filter; the backward walk is the backward traversal of the same. -/
 theorem walkRoot_eq (flt : Bool) (r : Node) (hg : goodRoot r = true) :
-    walkRoot flt r = (ownedWalk r).filter (fun n => !flt || n.kind.isSym) := by
-  have hg' : goodGL (sStepF flt) sNext (mStep flt) mNext ok (sInit true r.kind) (mInit r.kind) r.kids = true := by
-    rw [goodGL_congr (sStepF flt) sStep sNext (mStep flt) (mStep false) mNext ok (fun _ _ _ => rfl)
+    walkRoot flt r = (ownedWalk r).filter (fun n => !flt || n.kind.isSym) ∧
+    walkRootB flt r = travLB (sStepF flt) (sInit true r.kind) r.kids := by
+  have hg' : goodGL (sStepF flt) (mStep flt) ok (sInit true r.kind) (mInit r.kind) r.kids = true := by
+    rw [goodGL_congr (sStepF flt) sStep (mStep flt) (mStep false) ok (fun _ _ _ => rfl)
       (fun t k r => mStep_snd flt t k r)]
     exact hg
-  have h := travL_sim (sStepF flt) sNext (mStep flt) mNext rel ok
-    (fun s t k r hR hk => step_ok flt s t k r hR hk) (fun s t r hR => next_ok s t r hR)
+  have h := travL_sim (sStepF flt) (mStep flt) rel ok
+    (fun s t k r hR hk => step_ok flt s t k r hR hk)
     r.kids (sInit true r.kind) (mInit r.kind) (init_rel r.kind) hg'
+  refine ⟨?_, h.2.symm⟩
   unfold walkRoot ownedWalk
-  rw [← h, sStepF_eq, travL_filter]
+  rw [← h.1, sStepF_eq, travL_filter]
 
 /-! ### `scope_symbols` fold -/
 
@@ -362,7 +387,7 @@ theorem labels_fst : ∀ (n : Node) (s : SS Nat), (labels s n).map (·.1) = (pre
 theorem labelsL_fst : ∀ (s : SS Nat) (l : List Node), (labelsL s l).map (·.1) = (preorderL l).map Node.id
   | _, [] => rfl
   | s, n :: rest => by
-    simp only [labelsL, preorderL, List.map_append, labels_fst n s, labelsL_fst (sNext s n.role) rest]
+    simp only [labelsL, preorderL, List.map_append, labels_fst n s, labelsL_fst s rest]
 end
 
 end Pfst.Scope
